@@ -229,8 +229,15 @@ func parseBody(r io.Reader) (uint64, [][]byte, []byte, error) {
 		klog.Infof("read sizeline: %v", err)
 		return 0, nil, nil, err
 	}
-	var size uint64
-	if n, err := fmt.Sscanf(string(sizeLine), "old %d", &size); err != nil || n != 1 {
+	// The old size line is exactly "old", a space, and a decimal number: nothing may follow.
+	sizeStr, ok := strings.CutPrefix(string(sizeLine), "old ")
+	if !ok {
+		err := fmt.Errorf("malformed old size line %q", sizeLine)
+		klog.Infof("scan sizeline: %v", err)
+		return 0, nil, nil, err
+	}
+	size, err := strconv.ParseUint(sizeStr, 10, 64)
+	if err != nil {
 		klog.Infof("scan sizeline: %v", err)
 		return 0, nil, nil, err
 	}
